@@ -140,6 +140,11 @@ def compare_results(res, a, b, tag, dynamic=True):
         return
     if not oka:
         return
+    # a collapsed solution (voltage magnitudes near zero: a singular root reached after many iterations) carries no
+    # information - its angles are arbitrary and move with the last digit of the data
+    if min(float(np.min(np.abs(a.Bus.v.v))), float(np.min(np.abs(b.Bus.v.v)))) < 0.3:
+        res.count("roundtrip_pf_collapsed_solution_not_compared")
+        return
     ia = {str(k): i for i, k in enumerate(a.Bus.idx.v)}
     order = [ia[str(k)] for k in b.Bus.idx.v]
     d = float(max(np.max(np.abs(a.Bus.v.v[order] - b.Bus.v.v)), np.max(np.abs(a.Bus.a.v[order] - b.Bus.a.v))))
@@ -229,9 +234,9 @@ def run_rtgen(spec, res):
     sw = []
     for k in range(nsw):
         b = net["bus"][int(rng.integers(0, len(net["bus"])))]
-        sw.append(dict(idx="SW%d" % k, bus=b["idx"], Vn=float(b["Vn"]) * float(rng.choice([1.0, 1.0, 1.05])), Sn=float(rng.choice([net["mva"], 25.0, 250.0])),
-                       g=0.0, b=float(np.round(rng.uniform(0.0, 0.05), 4)), gs="[0.0, 0.0]",
-                       bs="[%.4f, %.4f]" % (float(rng.uniform(0.01, 0.05)), float(rng.uniform(0.01, 0.05))), ns="[2, 3]", u=1))
+        sw.append(dict(idx="SW%d" % k, bus=b["idx"], Vn=float(b["Vn"]) * float(rng.choice([1.0, 1.0, 1.05])), Sn=float(net["mva"]) * float(rng.choice([1.0, 0.5, 2.0])),
+                       g=0.0, b=float(np.round(rng.uniform(0.0, 0.02), 4)), gs="[0.0, 0.0]",
+                       bs="[%.4f, %.4f]" % (float(rng.uniform(0.002, 0.01)), float(rng.uniform(0.002, 0.01))), ns="[2, 3]", u=1))
 
     def build():
         ss = gn.build_system(net, setup=False)
